@@ -170,6 +170,7 @@ def run(chk):
                 ("policy allows the action on another resource only", policy([allow("alice", ep["action"], other_res)]), False),
                 ("policy allows only a sibling action on the resource", policy([allow("alice", sibling, res)]), False),
                 ("policy allows the action to everybody but denies alice", policy([allow("*", ep["action"], res), deny("alice", ep["action"], res)]), False),
+                ("policy denies alice first and then allows the action to everybody", policy([deny("alice", ep["action"], res), allow("*", ep["action"], res)]), False),
                 ("policy allows the action to bob only", policy([allow("bob", ep["action"], res)]), False),
             ]
             for label, doc, exp in configs:
